@@ -143,7 +143,12 @@ func (doc *T) addSchemaToSpec(s *SchemaRef, refNameResolver RefNameResolver, par
 
 	name := refNameResolver(doc, s)
 	if doc.Components != nil {
-		if _, ok := doc.Components.Schemas[name]; ok {
+		if cur, ok := doc.Components.Schemas[name]; ok {
+			if cur == s {
+				// the component itself: dereference it rather than make it refer to itself
+				s.Ref = ""
+				return true
+			}
 			s.Ref = "#/components/schemas/" + name
 			return true
 		}
@@ -166,7 +171,12 @@ func (doc *T) addParameterToSpec(p *ParameterRef, refNameResolver RefNameResolve
 	}
 	name := refNameResolver(doc, p)
 	if doc.Components != nil {
-		if _, ok := doc.Components.Parameters[name]; ok {
+		if cur, ok := doc.Components.Parameters[name]; ok {
+			if cur == p {
+				// the component itself: dereference it rather than make it refer to itself
+				p.Ref = ""
+				return true
+			}
 			p.Ref = "#/components/parameters/" + name
 			return true
 		}
@@ -189,7 +199,12 @@ func (doc *T) addHeaderToSpec(h *HeaderRef, refNameResolver RefNameResolver, par
 	}
 	name := refNameResolver(doc, h)
 	if doc.Components != nil {
-		if _, ok := doc.Components.Headers[name]; ok {
+		if cur, ok := doc.Components.Headers[name]; ok {
+			if cur == h {
+				// the component itself: dereference it rather than make it refer to itself
+				h.Ref = ""
+				return true
+			}
 			h.Ref = "#/components/headers/" + name
 			return true
 		}
@@ -212,7 +227,12 @@ func (doc *T) addRequestBodyToSpec(r *RequestBodyRef, refNameResolver RefNameRes
 	}
 	name := refNameResolver(doc, r)
 	if doc.Components != nil {
-		if _, ok := doc.Components.RequestBodies[name]; ok {
+		if cur, ok := doc.Components.RequestBodies[name]; ok {
+			if cur == r {
+				// the component itself: dereference it rather than make it refer to itself
+				r.Ref = ""
+				return true
+			}
 			r.Ref = "#/components/requestBodies/" + name
 			return true
 		}
@@ -235,7 +255,12 @@ func (doc *T) addResponseToSpec(r *ResponseRef, refNameResolver RefNameResolver,
 	}
 	name := refNameResolver(doc, r)
 	if doc.Components != nil {
-		if _, ok := doc.Components.Responses[name]; ok {
+		if cur, ok := doc.Components.Responses[name]; ok {
+			if cur == r {
+				// the component itself: dereference it rather than make it refer to itself
+				r.Ref = ""
+				return true
+			}
 			r.Ref = "#/components/responses/" + name
 			return true
 		}
@@ -258,7 +283,12 @@ func (doc *T) addSecuritySchemeToSpec(ss *SecuritySchemeRef, refNameResolver Ref
 	}
 	name := refNameResolver(doc, ss)
 	if doc.Components != nil {
-		if _, ok := doc.Components.SecuritySchemes[name]; ok {
+		if cur, ok := doc.Components.SecuritySchemes[name]; ok {
+			if cur == ss {
+				// the component itself: dereference it rather than make it refer to itself
+				ss.Ref = ""
+				return
+			}
 			ss.Ref = "#/components/securitySchemes/" + name
 			return
 		}
@@ -281,7 +311,12 @@ func (doc *T) addExampleToSpec(e *ExampleRef, refNameResolver RefNameResolver, p
 	}
 	name := refNameResolver(doc, e)
 	if doc.Components != nil {
-		if _, ok := doc.Components.Examples[name]; ok {
+		if cur, ok := doc.Components.Examples[name]; ok {
+			if cur == e {
+				// the component itself: dereference it rather than make it refer to itself
+				e.Ref = ""
+				return
+			}
 			e.Ref = "#/components/examples/" + name
 			return
 		}
@@ -304,7 +339,12 @@ func (doc *T) addLinkToSpec(l *LinkRef, refNameResolver RefNameResolver, parentI
 	}
 	name := refNameResolver(doc, l)
 	if doc.Components != nil {
-		if _, ok := doc.Components.Links[name]; ok {
+		if cur, ok := doc.Components.Links[name]; ok {
+			if cur == l {
+				// the component itself: dereference it rather than make it refer to itself
+				l.Ref = ""
+				return
+			}
 			l.Ref = "#/components/links/" + name
 			return
 		}
